@@ -29,8 +29,8 @@ CLAIMED = {
          'Static table agreement and pairing rules: the encoder escape table (256 characters x escape_solidus, char and wchar_t) is the inverse of the RFC 8259 un-escape table the parser is verified against, control characters always leave through a four-digit \\u path with the standard surrogate split, no (pointer,length) pair mixes two objects, and the parser resumes string tokens where it left them. Necessary structural clauses of lossless round-trip.',
          'Decides the escape/un-escape agreement and the listed pairing rules; does not decide byte-for-byte canonicity under all options, Grisu3/from_chars or the pretty-printer column arithmetic.',
          'DESIGN.md §4 C01'),
- 'C05': ('per-site safety obligations: bounded snprintf lengths (static bound or dominating upper-bound test), regex construction inside converting try/catch, clamped slice steps, value-set analysis of every __builtin_unreachable',
-         'Static per-site obligations over all of include/: every snprintf length is bounded by its buffer, every std::regex built from run-time text is inside a try that converts, every run-time-step slice loop clamps the step, and every __builtin_unreachable is unreachable for every value its discriminant can take (label completeness over the enum, callee return-value enumeration, assigned-value sets, or a table entry whose supporting facts are re-checked). Quantifies over code sites, not inputs.',
+ 'C05': ('per-site safety obligations: bounded snprintf lengths (static bound or dominating upper-bound test), regex construction inside converting try/catch, clamped slice steps, value-set analysis of every __builtin_unreachable, margin typestate (must-dataflow) for cursor dereferences in the character scanners and for the state stacks of the expression compilers',
+         'Static per-site obligations over all of include/: every snprintf length is bounded by its buffer, every std::regex built from run-time text is inside a try that converts, every run-time-step slice loop clamps the step, and every __builtin_unreachable is unreachable for every value its discriminant can take (label completeness over the enum, callee return-value enumeration, assigned-value sets, or a table entry whose supporting facts are re-checked); every cursor dereference in the JSON/CSV/JSONPath/JMESPath/JSON Pointer scanners is dominated by an end-pointer comparison that still covers it, and every back()/pop_back() of the JSONPath/JMESPath state stacks by a non-emptiness fact. Quantifies over code sites and paths, not inputs.',
          'Decides the listed obligations; does not decide termination, absence of all undefined behaviour or assertion freedom.',
          'DESIGN.md §4 C05'),
  'C06': ('boundary-partition partial evaluation of encoder width ladders; decoding of the written header with the specification tables used for the decoders',
